@@ -33,13 +33,25 @@ def history(rng, exe, length, box, f0=1e9):
 
     def fail(msg):
         return S, msg + '\n  at `%s` -> %s' % (S.lines[-1][:100], S.outs[-1][:100])
+
+    def check_end():
+        e = val(S.send('cal get_calibration_end 0'))
+        if e != (max(cals.values()) + 1 if cals else 0):
+            return 'get_calibration_end returned %s: not one past the highest live index %s (live indices %s)' % (
+                e, max(cals.values()) if cals else None, sorted(cals.values()))
+        for name, ci in list(cals.items())[:3]:
+            if val(S.send('cal find_calibration 0 ' + vlib.hexbytes(name))) != ci:
+                return 'find(%r) no longer returns index %d' % (name, ci)
+        return None
     if not S.send('cal create 0').startswith('ok'):
         return fail('create failed')
     for _ in range(length):
         r = rng.random()
         ready = [n for n in news if len(news[n]['codes']) >= 3]
-        if ready and rng.random() < 0.25:
+        if ready and rng.random() < 0.45:
             r = 0.85
+        elif len(cals) >= 2 and rng.random() < 0.08:
+            r = 0.93
         lv = [h for h in live if h >= 3]
         if r < 0.16:
             g = rng.choice([0j, 1 + 0j, -1 + 0j, calsim.rc(rng, 0.5), calsim.rc(rng, 0.5)])
@@ -138,6 +150,9 @@ def history(rng, exe, length, box, f0=1e9):
                 elif ci in cals.values():
                     return fail('add_calibration returned index %d which holds another calibration' % ci)
                 cals[name] = ci
+                m = check_end()
+                if m:
+                    return fail(m)
                 dut = [[calsim.rc(rng, 0.5)]]
                 o = S.send('cal apply 0 %d m 1 %s %s' % (ci, vlib.d2h(f0), calsim.cells([np.array(box.measure(dut, 0))])))
                 ok, Sm = calsim.parse_apply(o, 1)
@@ -154,6 +169,9 @@ def history(rng, exe, length, box, f0=1e9):
                 if not S.send('cal delete_calibration 0 %d' % cals[name]).startswith('ok'):
                     return fail('delete_calibration of a live index failed')
                 del cals[name]
+                m = check_end()
+                if m:
+                    return fail(m)
             else:
                 bad = rng.choice([-1, 50] + [i for i in range(12) if i not in cals.values()])
                 if not S.send('cal delete_calibration 0 %d' % bad).startswith('fail ENOENT'):
